@@ -12,11 +12,12 @@ def real_print(inst):
     return str(inst)
 
 
-def real_parse(flavour_name, lines, preamble=False):
-    """{'is': [instr json]} or {'err': exception class name}; also returns the Subroutine"""
+def real_parse(flavour_name, lines, preamble=False, factory=None):
+    """{'is': [instr json]} or {'err': exception class name}; also returns the Subroutine.
+    `factory`: a flavour class other than the three stock ones"""
     text = (PREAMBLE if preamble else "") + "\n".join(lines)
     try:
-        sub = parse_text_subroutine(text, flavour=H.FLAVOURS[flavour_name]())
+        sub = parse_text_subroutine(text, flavour=(factory or H.FLAVOURS[flavour_name])())
     except Exception as e:
         return {"err": type(e).__name__}, None
     try:
@@ -174,3 +175,124 @@ def branchy_source(rng):
     for lab in labels:
         body.insert(rng.randrange(len(body) + 1), lab + ":")
     return lines + body + ["qfree Q0", "qfree Q1", "ret_reg R0"]
+
+
+# ---- flavours beyond the three stock ones ---------------------------------------------------
+# User flavours are built with the documented hook: subclass a flavour (or Flavour itself) and
+# extend `instrs`; `Flavour.__init__` inserts the core classes and then `update`s its maps with
+# `instrs`, so the LAST class with a mnemonic / opcode is the one the maps resolve to.
+
+import dataclasses as _dc
+
+import numpy as _np
+
+from netqasm.lang.instr import core as _core
+from netqasm.lang.instr import flavour as _fl
+
+
+@_dc.dataclass
+class MyRotX(_core.RotationInstruction):  # re-uses mnemonic AND opcode of rot_x
+    id: int = 27
+    mnemonic: str = "rot_x"
+
+    def to_matrix(self):
+        return _np.eye(2)
+
+
+@_dc.dataclass
+class MyRotX2(_core.RotationInstruction):  # a second replacement of the same pair
+    id: int = 27
+    mnemonic: str = "rot_x"
+
+    def to_matrix(self):
+        return _np.eye(2)
+
+
+@_dc.dataclass
+class MyH(_core.SingleQubitInstruction):  # re-uses the mnemonic of h under a new opcode
+    id: int = 60
+    mnemonic: str = "h"
+
+    def to_matrix(self):
+        return _np.eye(2)
+
+
+@_dc.dataclass
+class MyCrotZ(_core.ControlledRotationInstruction):  # re-uses the opcode of cphase, unused mnemonic
+    id: int = 31
+    mnemonic: str = "crot_z"
+
+    def to_matrix(self):
+        return _np.eye(4)
+
+    def to_matrix_target_only(self):
+        return _np.eye(2)
+
+
+@_dc.dataclass
+class MyMeas(_core.MeasInstruction):  # replaces a CORE class (same mnemonic and opcode)
+    pass
+
+
+def _extend(base, extra, name):
+    class _U(base):
+        @property
+        def instrs(self):
+            return super().instrs + list(extra)
+    _U.__name__ = _U.__qualname__ = name
+    return _U
+
+
+class _Bare(_fl.Flavour):
+    @property
+    def instrs(self):
+        return [MyRotX2, MyH, MyRotX]
+
+    def __init__(self):
+        super().__init__(self.instrs)
+
+
+CUSTOM_FLAVOURS = {
+    "nv+MyRotX": _extend(_fl.NVFlavour, [MyRotX], "NVPlusMyRotX"),
+    "vanilla+MyH": _extend(_fl.VanillaFlavour, [MyH], "VanillaPlusMyH"),
+    "vanilla+MyCrotZ": _extend(_fl.VanillaFlavour, [MyCrotZ], "VanillaPlusMyCrotZ"),
+    "reids+MyMeas+2xMyRotX": _extend(_fl.REIDSFlavour, [MyMeas, MyRotX, MyRotX2], "REIDSPlus"),
+    "bare": _Bare,
+    "nv+MyH+MyCrotZ": _extend(_fl.NVFlavour, [MyH, MyCrotZ, MyRotX2], "NVPlus3"),
+}
+
+
+def custom_table(factory):
+    """(classes in insertion order: core first, then the flavour's `instrs`; rows for the model;
+    the classes the maps must resolve to per mnemonic / per opcode under 'last wins')"""
+    classes = list(_fl.CORE_INSTRUCTIONS) + list(factory().instrs)
+    rows = [[H.T.cls_name(c), c.id, c.mnemonic, H.shape_of(c)] for c in classes]
+    by_mn, by_id = {}, {}
+    for c in classes:
+        by_mn[c.mnemonic] = c
+        by_id[c.id] = c
+    return classes, rows, by_mn, by_id
+
+
+def real_tbt_custom(factory, lines):
+    """text -> objects -> bytes -> objects -> text with a custom flavour, through both binary entry
+    points; returns {'is':…, 'is2':…, 'lines2':…} / {'err':…} like the model op text.tbt"""
+    from netqasm.lang.parsing.binary import Deserializer, deserialize
+    rp, sub = real_parse(None, lines, preamble=True, factory=factory)
+    if sub is None:
+        return rp
+    out = {"is": rp.get("is")}
+    try:
+        raw = bytes(sub)
+        a = Deserializer(factory()).deserialize_subroutine(raw)
+        b = deserialize(raw, flavour=factory())
+    except Exception as e:
+        out["lines2"] = None
+        out["exc"] = type(e).__name__
+        return out
+    la, lb = [str(i) for i in a.instructions], [str(i) for i in b.instructions]
+    out["is2"] = [H.instr_to_json(i) for i in a.instructions]
+    out["lines2"] = la
+    if la != lb or list(a.instructions) != list(b.instructions):
+        out["entry_points_differ"] = [la, lb]
+    return out
